@@ -1312,7 +1312,7 @@ def _exact_ufunc(real):
     double: arithmetic is over the reals (DESIGN 2.2), and the same function
     applied to a symbolic value that equals the constant must agree with it."""
     def wrapper(x, *args, **kwargs):
-        if core.current() is None or args or kwargs:
+        if core.current() is None or args or kwargs or not getattr(core.current(), "exact_constant_functions", True):
             return real(x, *args, **kwargs)
         if isinstance(x, (SymArray,)) or is_sym(x):
             return real(x)
